@@ -347,12 +347,7 @@ func runMultiBatch(r *ev.Run, root string, c int) {
 	}
 	packs, inLoop, leftover := simulatePops(all)
 
-	t0 := time.Now()
-	ph := func(what string) {
-		fmt.Fprintf(os.Stderr, "c11: %s phase %s at %.1fs\n", id, what, time.Since(t0).Seconds())
-	}
 	pre, metaSizes, err := hs.preload(sizes)
-	ph("preloaded")
 	if err != nil {
 		r.Inconclusive(fmt.Sprintf("%s: preloading the wrapped stores failed: %v", id, err))
 		return
@@ -388,17 +383,17 @@ func runMultiBatch(r *ev.Run, root string, c int) {
 		return
 	}
 	scanTriggered := receives == 0
-	ph("opened")
 	if !hs.adopt(pre, r.Pick(8, 1)) {
 		return
 	}
-	ph("adopted")
 	if !scanTriggered {
 		if !hs.fillToTrigger() {
 			return
 		}
-		// the receive that makes the heap overflow
-		if !hs.fill(1) {
+		// the receive that makes the heap overflow; its index row is written before any packer looks it up
+		// (the usual order, here forced: the other order is the subject of the slow-index-set histories)
+		if !hs.put(func(ref blob.Ref) { in.kv.armHold(ref.String()) }, nil) {
+			r.Inconclusive(id + ": the receive that triggers the compaction failed without any fault")
 			return
 		}
 	}
@@ -431,12 +426,10 @@ func runMultiBatch(r *ev.Run, root string, c int) {
 		r.Note("multi_batch", kind+"/fewer-packed-uploads-than-expected")
 		label += "(fewer-packed-uploads)"
 	}
-	ph("packers ended")
 	in.crash()
 	if !hs.restart(label) {
 		return
 	}
-	ph("restart1 verified")
 	if !hs.settle() {
 		return
 	}
@@ -445,12 +438,9 @@ func runMultiBatch(r *ev.Run, root string, c int) {
 		return
 	}
 	in.crash()
-	ph("filled")
 	if !hs.restart("final/after-multi-batch-compaction") {
 		return
 	}
-	ph("restart2 verified")
 	r.Count("multi_batch_histories", 1)
 	hs.finish("multi-batch-compaction/" + kind)
-	ph("finished")
 }
